@@ -260,15 +260,19 @@ Definition string_ok (x out : str) : bool :=
 (** the printed text, lexed by the specification's lexer, is the token sequence of the document *)
 Definition lex_ok (out : str) (expected : list tok) : bool :=
   match lex out with Some ts => list_eqb tok_eqb ts expected | None => false end.
+(** the same under the specification's reading of string tokens, the document's multi-line values
+    standing for their BlockStringValue *)
+Definition lex_ok_spec (out : str) (expected : list tok) : bool :=
+  match lex_spec out with Some ts => list_eqb tok_eqb ts expected | None => false end.
 
 Definition holds (c : case) : bool :=
   match c with
   | CStr x out => string_ok x out
   | CWriter _ out js => template_ok out js
   | CTs A _ out js re =>
-      template_ok_opt (print_tsdoc_ext A) out js && reparse_ok tsdoc_eq A re && lex_ok out (tokens_of_tsdoc A)
+      template_ok_opt (print_tsdoc_ext A) out js && reparse_ok tsdoc_eq A re && lex_ok out (tokens_of_tsdoc A) && lex_ok_spec out (tokens_spec_tsdoc A)
   | COp A _ out js re =>
-      template_ok_opt (print_opdoc A) out js && reparse_ok opdoc_eq A re && lex_ok out (tokens_of_opdoc A)
+      template_ok_opt (print_opdoc A) out js && reparse_ok opdoc_eq A re && lex_ok out (tokens_of_opdoc A) && lex_ok_spec out (tokens_spec_opdoc A)
   | CServer plugin A stripped _ out js re =>
       (* [ReSame] here: the printed text parses back to [stripped] *)
       template_ok out js
@@ -278,6 +282,7 @@ Definition holds (c : case) : bool :=
          | ReNone => false
          end
       && lex_ok out (tokens_of_tsdoc (spec_server_schema plugin A))
+      && lex_ok_spec out (tokens_spec_tsdoc (spec_server_schema plugin A))
   | CTemplate src v => option_eqb str_eqb (eval_template src) v
   | CModule plugin A text node_used v re =>
       if node_used then
